@@ -498,8 +498,16 @@ class Gen:
             cond = self.expr("bool", d, env)
             arms = [("true", self.expr(ty, d, env)), ("false", self.expr(ty, d, env))]
             if r.random() < 0.3:
-                arms = arms[:1]
-            dflt = self.expr(ty, d, env) if r.random() < 0.5 or len(arms) < 2 else None
+                arms = arms[:1] if r.random() < 0.6 else arms[1:]
+            if r.random() < 0.35:
+                # cases of other names next to (before, between, after, instead of) the true/false cases: never taken for a boolean
+                for k in r.sample(["foo", "bar", "x y", "truex", "False"], r.randint(1, 2)):
+                    arms.insert(r.randint(0, len(arms)), (k, self.expr(ty, d, env)))
+                if r.random() < 0.25:
+                    arms = [a for a in arms if a[0] not in ("true", "false")] or arms
+            if r.random() < 0.2:
+                r.shuffle(arms)
+            dflt = self.expr(ty, d, env) if r.random() < 0.5 or len(arms) < 2 or {a[0] for a in arms} != {"true", "false"} else None
             if r.random() < 0.03:
                 dflt = None
             return ("select", cond, dflt, arms)
